@@ -8,7 +8,7 @@ from ..rules_e1 import run_e1
 from ..rules_e2 import run_e2
 from ..rules_contract import run_contracts
 from ..rules_dep import run_dep, run_err_both, run_eq_hash
-from ..rules_signpair import run_signpair, run_loneabs, run_truncsplit, run_remcarry
+from ..rules_signpair import run_signpair, run_loneabs, run_truncsplit, run_remcarry, run_negmagnitude
 
 UNITS = ["years", "months", "weeks", "days", "hours", "minutes", "seconds", "milliseconds", "microseconds", "nanoseconds"]
 SELF = ("param", 1, "self")
@@ -17,6 +17,7 @@ SELF = ("param", 1, "self")
 def run(ctx, rep):
     run_truncsplit(ctx, rep, floor=1)
     run_remcarry(ctx, rep)
+    run_negmagnitude(ctx, rep)
     run_eq_hash(ctx, rep)
     run_dep(ctx, rep, "C12")
     run_err_both(ctx, rep, "C12")
